@@ -142,6 +142,17 @@ CHECKS: dict[str, tuple[str, str, str, str]] = {
         "Trusted: ast, sa/tab.py, syntactic table of Path/shutil mutators.",
         "DESIGN.md §3 C19",
     ),
+    "C11": (
+        "typestate over the tabulated paths with exceptional edges (effects legal only after a successful build)",
+        "On every path of add_header_to_file and of the annotate loop: a file-system effect is legal only after the"
+        " header builder returned; paths on which the builder raises CommentCreateError / MissingReuseInfoError have no"
+        " effect at all and return a non-zero result; skipped files have no effect; per-file results are accumulated"
+        " with no early exit and the command exits min(sum, 1); every usage-error pre-flight precedes the loop, raises"
+        " click.UsageError and has no effects; every option of a mutex table is declared MutexOption with that"
+        " table; the anticipated failures (unsupported form, premature terminator) are raised.",
+        "Trusted: ast, sa/tab.py, syntactic table of file-system mutators. OS failures of the final write are out of scope.",
+        "DESIGN.md §3 C11",
+    ),
 }
 
 PENDING_REASON = "check not implemented yet (build in progress; see DESIGN.md §7)"
